@@ -72,7 +72,7 @@ func genLoop(r *run.Rand, big bool) *pipe.Workload {
 			nLines = r.Range(500, 6000)
 		}
 		for n := 1; n <= nLines; n++ {
-			class := "MMMMMMMEIIWWUU"[r.Intn(14)]
+			class := "MMMMMMMEIJWWUU"[r.Intn(14)]
 			data = append(data, fmt.Sprintf("f%d:%d:%c:%s\n", i, n, class, keyPool[r.Intn(len(keyPool))])...)
 		}
 		w.Inputs = append(w.Inputs, pipe.Input{Name: fmt.Sprintf("f%d", i), Data: data})
@@ -562,7 +562,7 @@ func cliCase(c *run.Ctx, cs Case) {
 	args = append(args, command[0], "-m", pipe.StructuredRegex)
 	args = append(args, command[1:]...)
 	readers, workers, batch := 1+r.Intn(8), 1+r.Intn(16), 1+r.Intn(50)
-	args = append(args, "-i", "{eq {3} I}", "--readers", strconv.Itoa(readers), "--workers", strconv.Itoa(workers), "--batch", strconv.Itoa(batch))
+	args = append(args, "-i", "{eq {3} I}", "-i", "{eq {3} J}", "--readers", strconv.Itoa(readers), "--workers", strconv.Itoa(workers), "--batch", strconv.Itoa(batch))
 	unreadable := r.Intn(3) == 0
 	files := append([]string(nil), paths...)
 	if unreadable {
